@@ -7,3 +7,4 @@ open AgdbSearch
 #print axioms C17_empty_iff
 #print axioms C17_static_conditions
 #print axioms C17_optimal_partial
+#print axioms C17_distance_dependent_counterexample
